@@ -215,7 +215,10 @@ Definition new_file : writer := mkWriter [] [] false.
 Definition new_stream (n : Z) : scoll := mkScoll n 0 (IB (bc_new n)).
 
 Section Gen.
-(* opts.generate(ctx, id) at a clock reading *)
+(* opts.generate(ctx, id) at a clock reading.  With RunParallelCollectors the
+   custom collectors run in worker goroutines that are waited for, the element
+   channel is closed and drained, and the document is sorted by key: generate()
+   still returns one document per call, so the loop below is the same *)
 Variable gen : Z -> Z -> doc.
 
 (* flusher(): (state, no error) *)
